@@ -353,7 +353,11 @@ def random_c20(digital_rf, root, rng, name):
             else:
                 form = rng.choice(["single", "dict", "list"])
                 N = 1 if form == "single" else rng.choice([1, 2, 3])
-                idxs = next_indices(rng, cfg, top, N)
+                if stored and rng.random() < 0.3:
+                    # C20 speaks of all interleavings of write calls: a call may also fill in indices below what is stored
+                    # (ascending within the call, nothing that exists)
+                    top = rng.randint(-1, max(stored) - 1)
+                idxs = [k for k in next_indices(rng, cfg, top, N) if k not in stored]
                 if idxs:
                     ev = w.write(form, idxs, make_data(rng, tpl, form, len(idxs), uniform))
                     stored |= set(idxs) if ev["resp"] == "ok" else set(ev["stored"])
@@ -376,7 +380,7 @@ def random_c20(digital_rf, root, rng, name):
                 w.rf_obs(rid, what)
         for what in rng.sample(["all", "dmd", "drf", "reverse", "window", "channel"], 2):
             w.listing(what)
-    return w.scenario(name, dict(uniform=uniform, schema=leaves))
+    return w.scenario(name, dict(uniform=uniform, schema=leaves, anyorder=True))
 
 
 # ---- E2: behaviours of MCMetadata on the real code -------------------------------------------------------------------------
